@@ -29,7 +29,7 @@ use crate::runner::run_cases;
 pub const SPEC: PropSpec = PropSpec {
     id: "C20",
     level: "exploration",
-    rule: "E5 schedules: 2-4 subscriber API tasks (subscribe, yields, maybe unsubscribe), their receiver tasks (recv n times, maybe drop the receiver), 1-2 publishers with unique (publisher, counter) payloads and a len() caller, all built from the real SubscriptionHub futures and polled one at a time by a seeded executor (uniform random order, or PCT-style priorities with 1-3 change points, spurious polls included); channel capacities 1/2/8/128; at a random point all receiver tasks are frozen (never polled again) and only hub-API tasks run in rounds. Offline checker over the call/return log: N1 every publish completes within 2 x (#hub-API tasks) + 2 rounds with all receivers frozen, and no run stalls with a publisher pending; N2 every received line's method is <topic>.update of the subscriber's topic; N3 params.subscription_id is the id returned to that subscriber, ids pairwise distinct; N4 per subscriber and publisher the counters strictly increase, no line twice; N5 nothing published (call event) after an unsubscribe returned is received by that subscription, and - physically, on the multi-thread runtime - nothing lands in a subscriber's channel after its unsubscribe() returned and the channel was drained; N6 after final publishes the hub holds exactly the live subscriptions (closed receivers pruned, unsubscribed removed). Real-runtime lanes: the same programs on the 4-worker tokio runtime (N2-N5), a paused-clock lane (publish under a virtual 10 s time-out with full / closed channels), and the production control socket with a subscriber that never reads, one that disconnects abruptly and a well-behaved one that must keep receiving ordered events. Non-trivial = schedule with a Full drop, a Closed prune, or an unsubscribe / subscribe racing a publish; distinct = distinct hashes of the poll sequence (task kind per step). E6 live lane (12 sessions quick / 96 thorough; DESIGN.md 9.1): against the production sender process carrying client traffic, a control-socket client takes 60 stats subscriptions and never reads a byte while another subscribes and disconnects abruptly; for 8 sender ticks the reading subscriber must keep receiving stats pushes (no 15 s gap while the harness loop itself never stalled), get_subscription_count must answer 61, and 3 ticks after the stalled client left it must answer 1.",
+    rule: "E5 schedules: 2-4 subscriber API tasks (subscribe, yields, maybe unsubscribe), their receiver tasks (recv n times, maybe drop the receiver), 1-2 publishers with unique (publisher, counter) payloads and a len() caller, all built from the real SubscriptionHub futures and polled one at a time by a seeded executor (uniform random order, or PCT-style priorities with 1-3 change points, spurious polls included); channel capacities 1/2/8/128; at a random point all receiver tasks are frozen (never polled again) and only hub-API tasks run in rounds. Offline checker over the call/return log: N1 every publish completes within 2 x (#hub-API tasks) + 2 rounds with all receivers frozen, and no run stalls with a publisher pending; N2 every received line's method is <topic>.update of the subscriber's topic; N3 params.subscription_id is the id returned to that subscriber, ids pairwise distinct; N4 per subscriber and publisher the counters strictly increase, no line twice; N5 nothing published (call event) after an unsubscribe returned is received by that subscription, and - physically, on the multi-thread runtime - nothing lands in a subscriber's channel after its unsubscribe() returned and the channel was drained; N6 after final publishes the hub holds exactly the live subscriptions (closed receivers pruned, unsubscribed removed). Real-runtime lanes: the same programs on the 4-worker tokio runtime (N2-N5), a paused-clock lane (publish under a virtual 10 s time-out with full / closed channels), and the production control socket with a subscriber that never reads, one that disconnects abruptly and a well-behaved one that must keep receiving ordered events. Non-trivial = schedule with a Full drop, a Closed prune, or an unsubscribe / subscribe racing a publish; distinct = distinct hashes of the poll sequence (task kind per step). E6 live lane (12 sessions quick / 96 thorough; DESIGN.md 9.1): against the production sender process carrying client traffic, a control-socket client takes 60 stats subscriptions and never reads a byte while another subscribes and disconnects abruptly; for 8 sender ticks the reading subscriber must keep receiving stats pushes (no 15 s gap while the harness loop itself never stalled), get_subscription_count must answer 61, and 3 ticks after the stalled client left it must answer 1. Prune-race lane (multi-thread runtime): the clean-up unsubscribe of a subscription whose receiver is already gone is issued while a long publish (4-43 permanently full co-subscribers, up to 60 kB payload) holds the hub, so that it lands between the publish's fan-out and prune passes; after all co-subscribers left and the last subscriber closed, one publish must leave the hub empty.",
     assumptions: &[
         "interleavings are sampled (uniform + PCT-style), not enumerated; on the single-threaded E5 executor every hub call completes within one poll (its only await is the uncontended mutex), so E5 explores interleavings between operations and the frozen-receiver phase, while overlaps INSIDE an operation (unsubscribe / subscribe racing a publish) come from the multi-thread runtime lane",
         "a publisher may wait for another hub-API task that was handed the fair mutex and has not been polled yet; it may never need a receiver task to run",
@@ -46,6 +46,7 @@ pub const SPEC: PropSpec = PropSpec {
         ("race.subscribe_during_publish", 100, 4_000),
         ("N5.checked_after_unsubscribe", 2_000, 80_000),
         ("N5.physical_unsubscribe_rounds", 300, 4_000),
+        ("N6.prune_race_rounds", 1_000, 20_000),
         ("live.C20.stalled_subscriber_phases_survived", 8, 64),
         ("live.C20.cleanup_checked", 8, 64),
         ("N6.final_len_checked", 20_000, 800_000),
@@ -592,6 +593,78 @@ fn runtime_lane(cfg: &RunCfg, rep: &mut Report) {
         let ev = log.ev.lock().unwrap().clone();
         rep.add("runtime.operations", ev.len() as u64);
         check_log(&plan, &ev, None, rep, "tokio multi-thread runtime");
+    }
+    if rep.violations.iter().any(|v| v.signature == "C20.N1.publish-blocked") {
+        return;
+    }
+    // ---- prune race (added after seeded defect C20d): "closed subscribers are pruned" when the connection's own
+    // clean-up (unsubscribe of a subscription whose receiver is already gone) runs INSIDE a publish, between its
+    // fan-out pass and its prune pass. A long fan-out (many permanently full co-subscribers, large payload) keeps
+    // the hub lock while unsubscribe(A) queues up behind it and - the tokio mutex is FIFO - gets it before the
+    // publisher's second acquisition. Afterwards every co-subscriber leaves, one more subscriber closes, and a
+    // single publish must leave the hub empty.
+    let rounds = cfg.cases(1_500, 30_000);
+    let lane_start = Instant::now();
+    for round in 0..rounds {
+        let hub = SubscriptionHub::new();
+        let fillers = 4 + rng.usize_below(40);
+        let payload = "y".repeat(*rng.pick(&[64usize, 8_000, 60_000]));
+        let wait_us = rng.below(300);
+        let left: Option<usize> = rt.block_on(async {
+            let body = async {
+                let mut keep = Vec::new();
+                let mut filler_ids = Vec::new();
+                for _ in 0..fillers {
+                    let (tx, rx) = mpsc::channel::<String>(1);
+                    filler_ids.push(hub.subscribe("stats", tx).await);
+                    keep.push(rx);
+                }
+                let (tx_a, rx_a) = mpsc::channel::<String>(4);
+                let a = hub.subscribe("stats", tx_a).await;
+                let (tx_c, rx_c) = mpsc::channel::<String>(4);
+                let _c = hub.subscribe("stats", tx_c).await;
+                drop(rx_a); // A's connection is gone, its clean-up has not run yet
+                let (h1, pl) = (hub.clone(), payload.clone());
+                let publisher = tokio::spawn(async move {
+                    h1.publish("stats", json!({"pad": pl})).await;
+                });
+                let h2 = hub.clone();
+                let cleaner = tokio::spawn(async move {
+                    tokio::time::sleep(Duration::from_micros(wait_us)).await;
+                    h2.unsubscribe(&a).await
+                });
+                let _ = publisher.await;
+                let _ = cleaner.await;
+                for id in filler_ids {
+                    hub.unsubscribe(&id).await;
+                }
+                drop(rx_c); // C closes without unsubscribing: only a publish can prune it
+                hub.publish("stats", json!({"last": true})).await;
+                let n = hub.len().await;
+                drop(keep);
+                n
+            };
+            tokio::time::timeout(Duration::from_secs(20), body).await.ok()
+        });
+        rep.eval();
+        rep.count("N6.prune_race_rounds");
+        match left {
+            None => {
+                rep.violation("C20.N1.publish-blocked", format!("real runtime, prune-race round {round}: hub calls did not complete within 20 s ({fillers} full co-subscribers)"));
+                return;
+            }
+            Some(0) => {}
+            Some(n) => {
+                rep.violation(
+                    "C20.N6.closed-subscriber-not-pruned",
+                    format!("real runtime, prune-race round {round}: a subscription whose receiver was already dropped was unsubscribed while a publish ({fillers} full co-subscribers, payload {} B) was in flight; afterwards all co-subscribers unsubscribed, the last subscriber closed its receiver, and one more publish on its topic left the hub with {n} entries (expected 0: closed subscribers are pruned)", payload.len()),
+                );
+                break;
+            }
+        }
+        if lane_start.elapsed() > Duration::from_secs(600) {
+            break;
+        }
     }
     // ---- physical N5: nothing lands in a subscriber's channel after its unsubscribe() has returned --------------------
     // A publisher hammers one topic that also has several permanently full capacity-1 subscribers (long fan-out
